@@ -418,7 +418,7 @@ func checkC11(rc *Run) error {
 	// (3) token sequences, ill-formed ones included, through parser AND evaluator
 	var seqs [][]string
 	var table []specTok
-	pres, err := RunTLC(rc, TLCOpts{Name: "parser", Module: "Gen_Parser", Cfg: fmt.Sprintf("CONSTANTS\n MaxLen = %d\n NShards = 1\n Shard = 0\nINIT Init\nNEXT Next\nCHECK_DEADLOCK FALSE\n", rc.Pick(3, 4)), Timeout: 40 * time.Minute, HeapGB: 12,
+	pres, err := RunTLC(rc, TLCOpts{Name: "parser", Module: "Gen_Parser", Cfg: fmt.Sprintf("CONSTANTS\n MaxLen = %d\n Deep = FALSE\n NShards = 1\n Shard = 0\nINIT Init\nNEXT Next\nCHECK_DEADLOCK FALSE\n", rc.Pick(3, 3)), Timeout: 40 * time.Minute, HeapGB: 12,
 		OnVector: func(js []byte) {
 			var m M
 			if json.Unmarshal(js, &m) != nil {
@@ -628,14 +628,14 @@ func checkC11(rc *Run) error {
 	seenText := map[string]bool{}
 	nCorrupt := 0
 	for i, ct := range ctexts {
-		if !rc.Thorough() && !inShard(i, 8, int(rc.Seed%8+8)%8) {
+		if !rc.Thorough() && ct.f != "toml" && !inShard(i, 8, int(rc.Seed%8+8)%8) { // the structured TOML texts are few: always all of them
 			continue
 		}
 		variants := []string{ct.text}
 		lines := strings.SplitAfter(ct.text, "\n")
 		for k := range lines { // one line removed; two neighbouring lines swapped; cut at the line end
 			variants = append(variants, strings.Join(append(append([]string{}, lines[:k]...), lines[k+1:]...), ""))
-			variants = append(variants, strings.Join(lines[:k], ""))
+			variants = append(variants, strings.Join(lines[:k], ""), strings.TrimSuffix(strings.Join(lines[:k+1], ""), "\n")) // ... and without the final line break
 			if k+1 < len(lines) {
 				sw := append([]string{}, lines...)
 				sw[k], sw[k+1] = sw[k+1], sw[k]
